@@ -49,7 +49,7 @@ static void fmt_state(char *buf, size_t n, struct context_data *ctx)
 		 f->rowdelay, f->rowdelay_set);
 }
 
-static int mid_seen;
+static int mid_seen, mid_clean;
 static char mid_state[512];
 static double mid_time;
 
@@ -58,6 +58,11 @@ void spy_libxmp_virt_reset(struct context_data *ctx)
 	mid_seen = 1;
 	fmt_state(mid_state, sizeof mid_state, ctx);
 	mid_time = ctx->p.current_time;
+	{
+		struct flow_control *f = &ctx->p.flow;
+		mid_clean = f->pbreak == 0 && f->jump == -1 && f->jumpline == 0 && f->delay == 0 && f->rowdelay == 0 &&
+			    f->loop_dest == -1;
+	}
 	libxmp_virt_reset(ctx);
 }
 
@@ -356,6 +361,8 @@ static void do_case(int op, int arg)
 				FAIL(same ? "land:xmp_set_position(current-order)" : (arg < m->seq_data[q].entry_point ? "land:xmp_set_position(before-entry)" : "land:xmp_set_position"),
 				     "set_position(%d) seq %d: frame rc=%d pos=%d row=%d frame=%d seq=%d (was ord=%d pos=%d row/frame in pre)",
 				     arg, q, rc, fi.pos, fi.row, fi.frame, fi.sequence, pre_ord, pre_pos);
+			if (!same && mid_seen && !mid_clean)
+				FAIL("flow:xmp_set_position", "set_position(%d): a break/jump/delay/loop of the old position is still pending when the new row is read", arg);
 		}
 		break;
 	case OP_SETROW: {
@@ -406,6 +413,10 @@ static void do_case(int op, int arg)
 				if (ret != t || rc != 0 || fi.pos != t || fi.row != 0 || fi.frame != 0 || fi.sequence != pre_seq)
 					FAIL(sig, "%s from %d: expected order %d, ret=%d frame rc=%d pos=%d row=%d frame=%d seq=%d", nm, cur,
 					     t, ret, rc, fi.pos, fi.row, fi.frame, fi.sequence);
+				if (mid_seen && !mid_clean) {
+					snprintf(sig, sizeof sig, "flow:xmp_%s", nm);
+					FAIL(sig, "%s: a break/jump/delay/loop of the old position is still pending when the new row is read", nm);
+				}
 			} else if (!any) {
 				/* cur is the last (first) order of the sequence: stay put, i.e. either the call
 				 * changes nothing or the next frame is still in order cur */
@@ -488,6 +499,11 @@ static void do_case(int op, int arg)
 
 /* ---------------------------------------------------------------- generator */
 
+static int clampi(long long v)
+{
+	return v > 2147483647LL ? 2147483647 : v < -2147483647LL ? -2147483647 : (int)v;
+}
+
 static void gen_cases(int thorough, int ncases)
 {
 	struct module_data *m = &C->m;
@@ -566,9 +582,9 @@ static void gen_cases(int thorough, int ncases)
 			if (len > 0) {
 				int i = thorough && vrng_chance(70) ? (sweep_seek++ / 3) % len : (int)vrng_below(len);
 				int d = thorough ? (sweep_seek % 3) - 1 : vrng_range(-1, 1);
-				arg = m->xxo_info[i].time + d;
+				arg = clampi((long long)m->xxo_info[i].time + d);
 				if (vrng_chance(10))
-					arg = vrng_chance(50) ? -1 - (int)vrng_below(1000) : p->scan[p->sequence].time + vrng_range(-2, 500);
+					arg = vrng_chance(50) ? -1 - (int)vrng_below(1000) : clampi((long long)p->scan[p->sequence].time + vrng_range(-2, 500));
 				if (vrng_chance(10))
 					arg = vrng_below(p->scan[p->sequence].time > 0 ? p->scan[p->sequence].time : 1);
 			}
